@@ -34,6 +34,7 @@ func c23Guards(p *an.Prog, r *an.R, rule string, which []string) {
 		"Tombstone":        "a tombstoned repository's data reaches the result",
 		"FileTombstones":   "a file whose path is tombstoned for its repository is returned",
 	}
+	c23Aligned(p, r, rule)
 	total := 0
 	for _, spec := range []struct {
 		fn     string
@@ -273,4 +274,210 @@ func c23Escape(r *an.R, fname string, res ssa.Value, allowed, tenantData map[str
 	}
 	walk(res, 0)
 	r.OK("C23.R3", fname+"/unsafe-result/analysed", res.Pos(), "uses of the result were inspected")
+}
+
+// c23Aligned: the guards above take their facts from repoMetaData[i] and discharge writes of repoListEntry[i] with
+// them; that is only right while entry i describes repository i. Every writer of indexData.repoListEntry must
+// therefore add exactly one entry per element of repoMetaData, in order: an append (or an assignment at the loop's
+// own index) that is a top-level statement of a `range <x>.repoMetaData` loop with no continue/break/goto ahead of
+// it, the entry's Repository being that iteration's element.
+func c23Aligned(p *an.Prog, r *an.R, rule string) {
+	idT := p.Named("index", "indexData")
+	if !r.Anchor(idT != nil, "index.indexData") {
+		return
+	}
+	var rle, rmd *types.Var
+	for _, f := range an.StructFields(idT) {
+		switch f.Name() {
+		case "repoListEntry":
+			rle = f
+		case "repoMetaData":
+			rmd = f
+		}
+	}
+	if !r.Anchor(rle != nil && rmd != nil, "indexData.repoListEntry / repoMetaData") {
+		return
+	}
+	isField := func(info *types.Info, e ast.Expr, f *types.Var) bool {
+		se, ok := ast.Unparen(e).(*ast.SelectorExpr)
+		return ok && info.Selections[se] != nil && info.Selections[se].Obj() == f
+	}
+	writers := 0
+	p.AllDecls(func(fn *types.Func, d *an.DeclInfo) {
+		if d.Decl.Body == nil || fn.Pkg() == nil || fn.Pkg() != idT.Obj().Pkg() || strings.HasSuffix(p.Fset.Position(d.Decl.Pos()).Filename, "_test.go") {
+			return
+		}
+		info := d.Pkg.TypesInfo
+		key := an.FuncName(fn) + "/repoListEntry-aligned-with-repoMetaData"
+		// all assignments whose left side is <x>.repoListEntry or <x>.repoListEntry[i]
+		var grow []*ast.AssignStmt
+		ast.Inspect(d.Decl.Body, func(n ast.Node) bool {
+			as, ok := n.(*ast.AssignStmt)
+			if !ok {
+				return true
+			}
+			for i, lh := range as.Lhs {
+				if isField(info, lh, rle) {
+					// make(...) with length 0, or nil: an empty start
+					if i < len(as.Rhs) {
+						if c, ok := ast.Unparen(as.Rhs[i]).(*ast.CallExpr); ok && an.IsBuiltin(info, c, "make") {
+							if len(c.Args) >= 2 {
+								if tv := info.Types[c.Args[1]]; tv.Value != nil && tv.Value.String() == "0" {
+									continue
+								}
+								// make([]T, len(<x>.repoMetaData)): filled by index below
+								if lc, ok := ast.Unparen(c.Args[1]).(*ast.CallExpr); ok && an.IsBuiltin(info, lc, "len") && isField(info, lc.Args[0], rmd) {
+									continue
+								}
+							}
+						}
+						if info.Types[as.Rhs[i]].IsNil() {
+							continue
+						}
+					}
+					grow = append(grow, as)
+				} else if ix, ok := ast.Unparen(lh).(*ast.IndexExpr); ok && isField(info, ix.X, rle) {
+					grow = append(grow, as)
+				}
+			}
+			return true
+		})
+		if len(grow) == 0 {
+			return
+		}
+		writers++
+		// the range loops over repoMetaData of this function
+		type loop struct {
+			rs       *ast.RangeStmt
+			key, val types.Object
+		}
+		var loops []loop
+		ast.Inspect(d.Decl.Body, func(n ast.Node) bool {
+			if rs, ok := n.(*ast.RangeStmt); ok && isField(info, rs.X, rmd) {
+				l := loop{rs: rs}
+				if id, ok := rs.Key.(*ast.Ident); ok {
+					l.key = info.ObjectOf(id)
+				}
+				if id, ok := rs.Value.(*ast.Ident); ok {
+					l.val = info.ObjectOf(id)
+				}
+				loops = append(loops, l)
+			}
+			return true
+		})
+		perLoop := map[*ast.RangeStmt]int{}
+		for _, as := range grow {
+			var in *loop
+			topLevel := -1
+			for li := range loops {
+				for si, st := range loops[li].rs.Body.List {
+					if st == ast.Stmt(as) {
+						in, topLevel = &loops[li], si
+					}
+				}
+			}
+			if in == nil {
+				r.Bad(rule, key, as.Pos(), "indexData.repoListEntry is written outside a `range repoMetaData` loop, or conditionally inside one: entry i may no longer describe repository i, while Search/List take the tombstone flag and the tenant of repoMetaData[i] to decide about repoListEntry[i] - another repository's entry is handed out")
+				continue
+			}
+			perLoop[in.rs]++
+			// no way to the next iteration that bypasses the write
+			bypass := false
+			for _, st := range in.rs.Body.List[:topLevel] {
+				depth := 0
+				var walk func(n ast.Node)
+				walk = func(n ast.Node) {
+					ast.Inspect(n, func(m ast.Node) bool {
+						switch x := m.(type) {
+						case *ast.FuncLit:
+							return false
+						case *ast.ForStmt, *ast.RangeStmt:
+							if m != n {
+								depth++
+								walk(m)
+								depth--
+								return false
+							}
+						case *ast.BranchStmt:
+							if x.Tok == token.GOTO || x.Label != nil || (depth == 0 && (x.Tok == token.CONTINUE || x.Tok == token.BREAK)) {
+								// break inside a switch/select of the body leaves only that statement; be exact about it
+								if x.Tok == token.BREAK && x.Label == nil && inSwitch(st, x) {
+									return true
+								}
+								bypass = true
+							}
+						}
+						return true
+					})
+				}
+				walk(st)
+			}
+			// the element appended / assigned describes this iteration's repository
+			okElem := false
+			var elem ast.Expr
+			if ix, ok := ast.Unparen(as.Lhs[0]).(*ast.IndexExpr); ok {
+				if id, ok := ast.Unparen(ix.Index).(*ast.Ident); ok && info.ObjectOf(id) == in.key && len(as.Rhs) == 1 {
+					elem = as.Rhs[0]
+				}
+			} else if len(as.Rhs) == 1 {
+				if c, ok := ast.Unparen(as.Rhs[0]).(*ast.CallExpr); ok && an.IsBuiltin(info, c, "append") && len(c.Args) == 2 && isField(info, c.Args[0], rle) {
+					elem = c.Args[1]
+				}
+			}
+			if elem != nil {
+				if dd := defOf(info, d.Decl.Body, elem); dd != nil {
+					elem = dd
+				}
+				if cl, ok := ast.Unparen(elem).(*ast.CompositeLit); ok {
+					if v := litField(cl, "Repository"); v != nil {
+						if id, ok := ast.Unparen(v).(*ast.Ident); ok && in.val != nil && info.ObjectOf(id) == in.val {
+							okElem = true
+						}
+						if ix, ok := ast.Unparen(v).(*ast.IndexExpr); ok && isField(info, ix.X, rmd) {
+							if id, ok := ast.Unparen(ix.Index).(*ast.Ident); ok && info.ObjectOf(id) == in.key {
+								okElem = true
+							}
+						}
+					}
+				}
+			}
+			switch {
+			case bypass:
+				r.Bad(rule, key, as.Pos(), "an iteration of the loop over repoMetaData can go on to the next repository (continue/break) without adding its repoListEntry: later entries shift, entry i no longer describes repository i, and Search/List - which test repoMetaData[i] to decide about repoListEntry[i] - hand out another repository's entry")
+			case !okElem:
+				r.Und(rule, key, as.Pos(), "the entry written to repoListEntry is not recognisably built from this iteration's repoMetaData element (Repository: <range value>)")
+			default:
+				r.OK(rule, key, as.Pos(), "one entry per element of repoMetaData, in order, built from that element")
+			}
+		}
+		for rs, n := range perLoop {
+			if n > 1 {
+				r.Bad(rule, key+"/once-per-iteration", rs.Pos(), "more than one entry is added to repoListEntry per element of repoMetaData: the arrays are no longer index-aligned")
+			}
+		}
+	})
+	r.Floor(rule+".repoListEntry-writers", 1, writers)
+}
+
+// inSwitch: the unlabeled break b sits inside a switch/select nested in st (and so leaves only that statement)
+func inSwitch(st ast.Stmt, b *ast.BranchStmt) bool {
+	found := false
+	var walk func(n ast.Node, in bool)
+	walk = func(n ast.Node, in bool) {
+		ast.Inspect(n, func(m ast.Node) bool {
+			switch m.(type) {
+			case *ast.SwitchStmt, *ast.TypeSwitchStmt, *ast.SelectStmt:
+				if m != n {
+					walk(m, true)
+					return false
+				}
+			}
+			if m == ast.Node(b) && in {
+				found = true
+			}
+			return true
+		})
+	}
+	walk(st, false)
+	return found
 }
